@@ -37,6 +37,11 @@ theorem castToFloat_eq_zero_iff (r : Rat) : castToFloat r = 0 ↔ (-(1 / 2 ^ 150
   · intro h
     rw [if_pos h]
 
+theorem findScaleFactor_int (sg : Bool) (b : Nat) (given : Rat) (xs : List Rat) :
+    findScaleFactor (.int sg b) given xs =
+      if given = 0 ∨ tmpScale (.int sg b) xs > given then castToFloat (tmpScale (.int sg b) xs) else given := by
+  simp [findScaleFactor]
+
 /-- the scale factor returned is the given one or the computed one, and never smaller than the computed one
     (unless it is 0) -/
 theorem scale_cases (t : NumT) (ht : t ≠ .float32) (given : Rat) (hg : 0 ≤ given) (xs : List Rat)
